@@ -175,6 +175,12 @@ class Check:
         t = time.time()
         rc, out, dt = run([exe, "corr", self.pid, "--seed", str(self.seed), "--tier", self.tier,
                            "--out", self.workdir], cwd=VERIF, timeout=self.cfg.get("corr_timeout", 3000))
+        hang = os.path.join(self.workdir, "hang.json")
+        if rc == 4 and os.path.exists(hang):
+            # the watchdog ended the run: a call into the code under test did not return
+            self.failures.append(json.load(open(hang)))
+            self.broken.append(("correspondence_broken", "harness stopped by its watchdog: a call did not return", open(hang).read()))
+            return False
         if rc != 0:
             self.broken.append(("correspondence_broken", "harness corr run aborted (rc=%d)" % rc, out[-2000:]))
             return False
